@@ -187,3 +187,28 @@ func (env *e3Env) h5StateSetup(e *absint.Engine, st *absint.State, fr *absint.Fr
 	}
 	return H, in
 }
+
+// retLabel names a return site: the SSA text, plus an ordinal among the
+// function's textually identical returns (several `return true`).
+func retLabel(ret *ssa.Return) string {
+	txt := core.Short(ret.String())
+	fn := ret.Parent()
+	if fn == nil {
+		return txt
+	}
+	n, idx := 0, 0
+	for _, b := range fn.Blocks {
+		for _, ins := range b.Instrs {
+			if r2, ok := ins.(*ssa.Return); ok && core.Short(r2.String()) == txt {
+				n++
+				if r2 == ret {
+					idx = n
+				}
+			}
+		}
+	}
+	if n > 1 {
+		return fmt.Sprintf("%s #%d", txt, idx)
+	}
+	return txt
+}
